@@ -14,14 +14,29 @@ using tulz::RingBuffer;
 
 namespace {
 // ---- operation alphabet (simplest first)
-enum OpKind { PB, PF, EB, EF, OB, OF, RS, CC, MV, SA, CA, MA, NKINDS };
+// AB/AF/XB/XF: the pushed value is an element of the buffer itself (push_back(front()), push_front(back()), emplace_back(front()), emplace_front(back())): on a full
+// overwriting buffer the argument is the very element that is about to be discarded
+enum OpKind { PB, PF, EB, EF, OB, OF, RS, CC, MV, SA, CA, MA, AB, AF, XB, XF, NKINDS };
 struct Op { int kind; int arg; };
-const char *kname[] = {"pb", "pf", "eb", "ef", "ob", "of", "rs", "cc", "mv", "sa", "ca", "ma"};
+const char *kname[] = {"pb", "pf", "eb", "ef", "ob", "of", "rs", "cc", "mv", "sa", "ca", "ma", "ab", "af", "xb", "xf"};
 
 std::string op_str(const Op &o) { std::string s = kname[o.kind]; if (o.kind == RS || o.kind == CA || o.kind == MA) s += std::to_string(o.arg); return s; }
 
-struct Config { bool ow; int cap; int init; bool tracked; };       // init = number of elements given through the initializer list
-std::string cfg_str(const Config &c) { return fmt("ow=%d cap=%d init=%d T=%s :", c.ow, c.cap, c.init, c.tracked ? "tracked" : "int"); }
+// element types: int; the lifetime-tracked class (C09); a bitwise-relocatable class that owns heap memory (values live behind a pointer: a copy taken from a dead element is visible)
+struct Boxed {
+    int *p;
+    Boxed(int v) : p(new int(v)) {}
+    Boxed(const Boxed &o) : p(new int(*o.p)) {}
+    Boxed(Boxed &&o) noexcept : p(o.p) { o.p = new int(-996); }
+    Boxed &operator=(const Boxed &o) { if (this != &o) { int *n = new int(*o.p); delete p; p = n; } return *this; }
+    Boxed &operator=(Boxed &&o) noexcept { if (this != &o) { delete p; p = o.p; o.p = new int(-996); } return *this; }
+    ~Boxed() { delete p; p = nullptr; }
+    bool operator==(const Boxed &o) const { return *p == *o.p; }
+};
+enum { TY_INT = 0, TY_TRACKED = 1, TY_BOXED = 2 };
+const char *tname[] = {"int", "tracked", "boxed"};
+struct Config { bool ow; int cap; int init; bool tracked; int type = 0; };       // init = number of elements given through the initializer list
+std::string cfg_str(const Config &c) { return fmt("ow=%d cap=%d init=%d T=%s :", c.ow, c.cap, c.init, tname[c.tracked ? TY_TRACKED : c.type]); }
 
 std::string hist_str(const Config &c, const std::vector<Op> &h, const Op *inflight = nullptr) {
     std::string s = cfg_str(c);
@@ -33,7 +48,7 @@ std::string hist_str(const Config &c, const std::vector<Op> &h, const Op *inflig
 bool parse_hist(const std::string &s, Config &c, std::vector<Op> &h) {
     int ow, cap, init; char t[32];
     if (sscanf(s.c_str(), "ow=%d cap=%d init=%d T=%31s :", &ow, &cap, &init, t) != 4) return false;
-    c.ow = ow; c.cap = cap; c.init = init; c.tracked = std::string(t) == "tracked";
+    c.ow = ow; c.cap = cap; c.init = init; c.tracked = std::string(t) == "tracked"; c.type = c.tracked ? TY_TRACKED : std::string(t) == "boxed" ? TY_BOXED : TY_INT;
     std::stringstream ss(s.substr(s.find(':') + 1)); std::string tok;
     while (ss >> tok) {
         bool ok = false;
@@ -46,6 +61,7 @@ bool parse_hist(const std::string &s, Config &c, std::vector<Op> &h) {
 template<typename T> int val(const T &x);
 template<> int val<int>(const int &x) { return x; }
 template<> int val<Tracked>(const Tracked &x) { return x.value(); }
+template<> int val<Boxed>(const Boxed &x) { return *x.p; }
 
 struct Model { std::deque<int> d; size_t cap; };
 
@@ -55,6 +71,7 @@ void m_push_front(Model &m, int v) { if (m.d.size() == m.cap) m.d.pop_back(); m.
 bool precondition(const Model &m, bool ow, const Op &o) {
     switch (o.kind) {
     case PB: case PF: case EB: case EF: return ow || m.d.size() < m.cap;
+    case AB: case AF: case XB: case XF: return !m.d.empty() && (ow || m.d.size() < m.cap);
     case OB: case OF: return !m.d.empty();
     default: return true;
     }
@@ -139,6 +156,10 @@ template<typename T, bool OW> struct Sys {
         case PF: { int l = g_label++; T &r = b.push_front(T(l)); m_push_front(m, l); if (check && (&r != &b.front() || val<T>(r) != l)) bad("model:push-ref", "push_front did not return a reference to the inserted element"); break; }
         case EB: { int l = g_label++; T &r = b.emplace_back(l); m_push_back(m, l); if (check && (&r != &b.back() || val<T>(r) != l)) bad("model:push-ref", "emplace_back did not return a reference to the inserted element"); break; }
         case EF: { int l = g_label++; T &r = b.emplace_front(l); m_push_front(m, l); if (check && (&r != &b.front() || val<T>(r) != l)) bad("model:push-ref", "emplace_front did not return a reference to the inserted element"); break; }
+        case AB: { int l = m.d.front(); T &r = b.push_back(b.front()); m_push_back(m, l); if (check && (&r != &b.back() || val<T>(r) != l)) bad("model:push-ref", fmt("push_back(front()) did not insert a copy of the front element (%d)", l)); break; }
+        case AF: { int l = m.d.back(); T &r = b.push_front(b.back()); m_push_front(m, l); if (check && (&r != &b.front() || val<T>(r) != l)) bad("model:push-ref", fmt("push_front(back()) did not insert a copy of the back element (%d)", l)); break; }
+        case XB: { int l = m.d.front(); T &r = b.emplace_back(b.front()); m_push_back(m, l); if (check && (&r != &b.back() || val<T>(r) != l)) bad("model:push-ref", fmt("emplace_back(front()) did not insert a copy of the front element (%d)", l)); break; }
+        case XF: { int l = m.d.back(); T &r = b.emplace_front(b.back()); m_push_front(m, l); if (check && (&r != &b.front() || val<T>(r) != l)) bad("model:push-ref", fmt("emplace_front(back()) did not insert a copy of the back element (%d)", l)); break; }
         case OB: { T v = b.pop_back(); int e = m.d.back(); m.d.pop_back(); if (check && val<T>(v) != e) bad("model:pop-value", fmt("pop_back returned %d, expected %d", val<T>(v), e)); break; }
         case OF: { T v = b.pop_front(); int e = m.d.front(); m.d.pop_front(); if (check && val<T>(v) != e) bad("model:pop-value", fmt("pop_front returned %d, expected %d", val<T>(v), e)); break; }
         case RS: { b.resize((size_t)o.arg); while (m.d.size() > (size_t)o.arg) m.d.pop_back(); m.cap = (size_t)o.arg; break; }
@@ -203,12 +224,12 @@ struct Stats { uint64_t &states = shm->states, &transitions = shm->transitions, 
 
 template<typename T, bool OW> void bfs(bool tracked, int maxcap, std::set<std::string> &seen, Stats &st) {
     std::vector<Op> alphabet;
-    for (int k : {PB, PF, EB, EF, OB, OF}) alphabet.push_back(Op{k, 0});
+    for (int k : {PB, PF, EB, EF, OB, OF, AB, AF, XB, XF}) alphabet.push_back(Op{k, 0});
     for (int n = 1; n <= maxcap; n++) alphabet.push_back(Op{RS, n});
     for (int k : {CC, MV, SA}) alphabet.push_back(Op{k, 0});
     for (int n = 1; n <= std::min(maxcap, 3); n++) { alphabet.push_back(Op{CA, n}); alphabet.push_back(Op{MA, n}); }
     for (int cap = 1; cap <= maxcap; cap++) for (int init = 0; init <= std::min(cap, 3); init++) {
-        Sys<T, OW> sys; sys.cfg = Config{OW, cap, init, tracked};
+        Sys<T, OW> sys; sys.cfg = Config{OW, cap, init, tracked, std::is_same_v<T, Boxed> ? TY_BOXED : tracked ? TY_TRACKED : TY_INT};
         std::deque<std::vector<Op>> frontier;
         Model m;
         mark(hist_str(sys.cfg, {}));
@@ -243,10 +264,10 @@ template<typename T, bool OW> void bfs(bool tracked, int maxcap, std::set<std::s
 // all histories to a fixed depth without deduplication (the state abstraction is not trusted alone)
 template<typename T, bool OW> void enumerate(bool tracked, int cap, int depth, Stats &st) {
     std::vector<Op> alphabet;
-    for (int k : {PB, PF, OB, OF}) alphabet.push_back(Op{k, 0});
+    for (int k : {PB, PF, OB, OF, AB, AF}) alphabet.push_back(Op{k, 0});
     for (int n : {1, cap - 1, cap + 1, cap + 2}) if (n >= 1) alphabet.push_back(Op{RS, n});
     alphabet.push_back(Op{CA, 2}); alphabet.push_back(Op{MV, 0});
-    Sys<T, OW> sys; sys.cfg = Config{OW, cap, 0, tracked};
+    Sys<T, OW> sys; sys.cfg = Config{OW, cap, 0, tracked, std::is_same_v<T, Boxed> ? TY_BOXED : tracked ? TY_TRACKED : TY_INT};
     std::vector<std::vector<Op>> level{{}};
     for (int d = 0; d < depth; d++) {
         std::vector<std::vector<Op>> next;
@@ -270,7 +291,11 @@ void explore() {
     int maxcap = thorough() ? 8 : 6;
     std::set<std::string> seen; Stats st;
     if (tracked) { bfs<Tracked, false>(true, maxcap, seen, st); bfs<Tracked, true>(true, maxcap, seen, st); }
-    else { bfs<int, false>(false, maxcap, seen, st); bfs<int, true>(false, maxcap, seen, st); }
+    else {
+        bfs<int, false>(false, maxcap, seen, st); bfs<int, true>(false, maxcap, seen, st);
+        std::set<std::string> seen2;      // the same search with an element type that owns heap memory
+        bfs<Boxed, false>(false, std::min(maxcap, 5), seen2, st); bfs<Boxed, true>(false, std::min(maxcap, 5), seen2, st);
+    }
     uint64_t bfs_states = st.states, bfs_trans = st.transitions;
     int depth = thorough() ? 6 : 4;
     for (int cap : {2, 3}) {
@@ -293,6 +318,7 @@ void replay(const std::string &hist) {
         sys.step(pre, &last, m);
     };
     if (c.tracked) { if (c.ow) go(Sys<Tracked, true>{}); else go(Sys<Tracked, false>{}); }
+    else if (c.type == TY_BOXED) { if (c.ow) go(Sys<Boxed, true>{}); else go(Sys<Boxed, false>{}); }
     else { if (c.ow) go(Sys<int, true>{}); else go(Sys<int, false>{}); }
 }
 }  // namespace
@@ -301,7 +327,7 @@ int main(int argc, char **argv) {
     Harness h;
     h.name = "ringbuffer";
     h.rule = "explicit-state search: a state is an operation history replayed on a fresh real RingBuffer, keyed by the implementation's own fields (overwrite, capacity, head position, size; for the lifetime check also the status of "
-             "every physical slot); breadth-first to fixpoint with every operation of the alphabet (push/emplace/pop at both ends, resize(1..N), copy-construct, move round trip, self-assignment, copy-/move-assignment from a wrapped full "
+             "every physical slot); breadth-first to fixpoint with every operation of the alphabet (push/emplace/pop at both ends, pushes whose argument is an element of the buffer itself, resize(1..N), copy-construct, move round trip, self-assignment, copy-/move-assignment from a wrapped full "
              "buffer) applied in every state; after every transition the whole public API is compared with a capacity-bounded std::deque; non-trivial = transition on a non-empty buffer";
     h.assumptions = {"element values do not influence RingBuffer's control flow (data independence: RingBuffer never inspects values except through operator==)", "preconditions of the property respected (no pop on empty, no push on a full non-overwriting buffer, capacity >= 1)",
                      "capacities and resize targets up to the stated bound"};
